@@ -103,6 +103,9 @@ class World:
             [("udp", "default", "127.0.3.3:%d" % self.port_hop)],
             [("udp", "dest.test", "hop1.test:%d" % self.port_hop), ("udp", "*.wild.test", "127.0.3.2:%d" % self.port_hop), ("tcp", "default", "127.0.3.3:%d" % self.port_hop)],
             [("sctp", "dest.test", "127.0.3.1:%d" % self.port_hop)],
+            # wildcards that are not "*.domain", and exact entries that are a suffix of other hosts
+            [("udp", "10.20.*", "127.0.3.1:%d" % self.port_hop), ("udp", "sip*.pbx.test", "127.0.3.2:%d" % self.port_hop), ("udp", "dest.test", "127.0.3.3:%d" % self.port_hop)],
+            [("udp", "dest.test", "127.0.3.1:%d" % self.port_hop), ("udp", "*.wild.*", "127.0.3.2:%d" % self.port_hop)],
         ])
         ips = ["127.0.2.1", "127.0.2.2", "127.0.2.3", "127.0.3.1", "127.0.3.2", "127.0.3.3"]
         self.obs = []
@@ -401,7 +404,8 @@ def gen_request_case(g, tier, focus=None, c17=None):
             g.count("ruri_deco_" + deco)
         lit, rx = w.service_match(kind, user, host, port, whole, lst)
         # ---- To host -> static route ----
-        to_host = g.pick(["dest.test", "dest.test", "a.wild.test", "b.c.wild.test", "nowhere.test", "svc.test", "wild.test"])
+        to_host = g.pick(["dest.test", "dest.test", "a.wild.test", "b.c.wild.test", "nowhere.test", "svc.test", "wild.test",
+                          "voipdest.test", "10.20.7.7", "110.20.7.7", "sip7.pbx.test", "sip.pbx.test", "xsip7.pbx.test", "a.wild.org", "dest.test.org"])
         sr = w.static_route(to_host)
         # ---- Route set ----
         route_mode = g.pick(["none", "none", "own", "own+next", "next", "own+next+more", "nearmiss+next", "alias+next"])
@@ -673,7 +677,9 @@ def gen_dialog_case(g, tier, c17=None):
                 raw(m, ua_ip, w.port_ua, ["spec=C04 " + expect_dest("B", None, w.backends[0])])
                 d.backend = g.pick(w.backends[0])
                 bip, bport = d.backend.split(":")
-                code = g.pick([180, 183, 200, 200])
+                # any response carrying both tags pins, a rejection with a To tag included (its ACK and whatever
+                # else follows in that dialog must reach the backend that answered)
+                code = g.pick([180, 183, 200, 200, 200, 486, 404, 302, 603])
                 own = Via("UDP", lst.addr, lst.port, [("branch", "z9hG4bKown" + g.word(ALNUM, 4, 6))])
                 back = ua_via.stamped(ua_ip, w.port_ua)
                 r = dialog_resp(c, g, code, "INVITE", d, [own, back], extra=[(spell(g, "Expires", g.sp_pick([0, 2, 3, 4])), g.pick(["0", "60", "7200", "0600", "+90", "007", "3600 ", "1e3", "x"]))] if g.chance(0.5) else None)
@@ -710,6 +716,14 @@ def gen_dialog_case(g, tier, c17=None):
             g.count("dlg_after_termination")
         if terminate:
             d.pinned = False
+        if method == "INVITE" and d.pinned and g.chance(0.7):
+            # the pinned backend answers the re-INVITE, possibly with a rejection: the dialog lives on
+            bip, bport = d.backend.split(":")
+            own = Via("UDP", lst.addr, lst.port, [("branch", "z9hG4bKown" + g.word(ALNUM, 4, 6))])
+            back = ua_via.stamped(ua_ip, w.port_ua)
+            r = dialog_resp(c, g, g.pick([200, 491, 488, 403, 100, 180]), "INVITE", d, [own, back])
+            raw(r, bip, int(bport), ["spec=C02 " + expect_dest("U", "%s:%d" % (ua_ip, w.port_ua))])
+            g.count("dlg_reinvite_answered")
         if method == "BYE" and d.pinned and g.chance(0.7):
             # the backend answers the BYE (any final status): the pin dissolves
             bip, bport = d.backend.split(":")
@@ -745,6 +759,10 @@ def gen_tcp_case(g, tier):
                       "rport": g.chance(0.6)})
     pending = []     # transactions awaiting responses: (conn, method, via_as_relayed, dialog, got_final)
     dash_twin = []
+    # long structured branches that differ only in a trailing counter (as some stacks produce)
+    long_prefix = ("z9hG4bK" + g.word(ALNUM, 50, 90)) if g.chance(0.3) else None
+    if long_prefix:
+        g.count("tcp_case_long_branches")
     steps = g.rint(4, 20 * nconn if tier != "quick" else 5 * nconn)
     branches = set()
     for _ in range(steps):
@@ -763,6 +781,8 @@ def gen_tcp_case(g, tier):
             continue
         cn = g.pick(conns)
         br = "z9hG4bK" + g.word(ALNUM.upper(), 6, 10)
+        if long_prefix:
+            br = long_prefix + str(30000 + len(branches))
         forced_method = None
         if g.chance(0.06):
             # extension method containing '-': method M-X with branch Y, and (on another connection announcing the
